@@ -324,6 +324,44 @@ theorem no_check_in_commit_window_v0 (p : Nat) (evs : List Ev) (s : MS)
   intro i
   simp [MempoolLock.step, hwr]
 
+/-- **no_check_in_commit_window_v0_async.** Mempool v0 over an asynchronous ABCI connection
+(`CheckTxAsync` returns when the request is queued; answers come later, in order; `FlushSync`
+returns when everything queued before it is answered): for every pool size — the empty pool
+included — and every interleaving, while app Commit is requested no `CheckTx` of a new transaction
+is unanswered on the connection and none can start; and at all times no new check is queued in
+front of a recheck (the connection being FIFO, the rechecks of a block are answered before any
+check started after its commit). This is what `FlushAppConn` under the mempool lock buys. -/
+theorem no_check_in_commit_window_v0_async (p : Nat) (evs : List Ev) (s : MS)
+    (h : run .v0a { pool := p } evs = some s) :
+    windowClean .v0a s ∧ noCheckBeforeRecheck s.queue = true := by
+  have hi : IA s := (IA.init p).run h
+  refine ⟨?_, hi.ord⟩
+  intro hw
+  have hc : s.cpc = .commitGate := by
+    simp only [inWindow, hi.re, List.isEmpty_nil, Bool.not_true, Bool.or_false] at hw
+    revert hw
+    have := hi.nrg
+    cases hcp : s.cpc <;> simp_all
+  have hwr := hi.cw (by simp [hc, holds])
+  have hq := hi.cq hc
+  refine ⟨?_, ?_⟩
+  · simp only [checkInFlight, List.any_eq_false]
+    intro x hx hg
+    have := hi.fl x hx (by simpa using hg)
+    simp [hq] at this
+  · intro i
+    simp [MempoolLock.step, hwr]
+
+/-- the window is reachable on the asynchronous connection with an EMPTY pool after a rejected
+check was answered (so the flush cannot be skipped on `Size() == 0`): here the commit is
+requested on a drained connection -/
+example : ∃ s, run .v0a {} [.spawnCheck 9, .prelude 9, .spawnCommit, .lockCommit, .relCheck 9, .relFlush] = some s
+    ∧ s.cpc = .commitGate ∧ s.pool = 0 ∧ s.queue = [] := ⟨_, rfl, by decide, by decide, by decide⟩
+
+/-- and the flush really waits: with the check unanswered the commit request is not enabled -/
+example : ∃ s, run .v0a {} [.spawnCheck 9, .prelude 9, .spawnCommit, .lockCommit] = some s
+    ∧ step .v0a s .relFlush = none ∧ checkInFlight s = true := ⟨_, rfl, by decide, by decide⟩
+
 /-- v1 violates the same statement: a `CheckTx` that has passed its read-locked prelude is on the
 connection (in flight, holding no lock) when the committer requests app Commit. -/
 theorem check_in_commit_window_v1 :
